@@ -1169,7 +1169,7 @@ func shrink(sc Scenario) []Scenario {
 func init() {
 	f := core.Register("C12", gen, run, shrink)
 	f.Real = []string{"gortsplib.Client (client.go, client_media.go, client_format.go, client_reader.go, client_udp_listener.go), pkg/description, pkg/auth (sender), pkg/headers, pkg/base, pkg/conn"}
-	f.Simulated = []string{"the hostile server (scripted harness code built on pkg/base + pkg/conn)", "TCP/UDP sockets incl. UDP port-in-use failures (simnet)", "clock (fake), entropy"}
+	f.Simulated = []string{"the hostile server (scripted harness code built on pkg/base + pkg/conn; crypto/tls underneath in rtsps runs; the library's own tunnel codec for the HTTP tunnel)", "TCP/UDP sockets incl. UDP port-in-use failures (simnet)", "clock (fake), entropy"}
 	f.Excluded = []string{"HTTP / WebSocket tunnels and TLS towards the scripted server", "UDP-multicast"}
 	f.Rule = "scenario = client configuration (play or record; protocol forced udp / tcp / UDP-multicast or automatic; RTSP-over-HTTP tunnel in 15%; rtsps (the scripted server speaks TLS) in 40% of the tunnelled and 6% of the other runs, resets of the POST half, the GET half or both; credentials in the URL or not; back channels; AnyPortEnable; seeded read/write timeouts; busy local UDP ports) x a per-request behaviour list for the scripted server: normal, one of 16 grammar/byte-level mutations of the response, field-level mutation (SDP control attributes / profiles / key-mgmt / Content-Base; Transport ports, interleaved ids, protocol, delivery, source, profile; Session; RTP-Info), dropped, duplicated or delayed response (around and beyond ReadTimeout), injected interleaved frames or server requests, close before/after the response, RST, silence, unexpected status codes incl. 401 with odd challenges, CSeq missing/wrong/duplicated, redirects (self, other host, unresolvable, non-RTSP, invalid), flood, sticky 401, deaf-after (answers, then stops reading; bounded window), multicast-specific SETUP answers (ports past 65535, missing / unresolvable / unicast destination); the client then runs its whole script regardless of errors, plus extra calls, then Close; non-trivial = at least one call returned an error and the post-Close census ran; distinct = distinct canonical event log"
 	f.Assumptions = []string{
